@@ -32,7 +32,7 @@ func (fx *FuncCtx) step(st *State, in ssa.Instruction) (forks []*State, ended bo
 	switch x := in.(type) {
 	case *ssa.Alloc:
 		et := x.Type().(*types.Pointer).Elem()
-		o := fx.newObject(et, "alloc."+x.Comment)
+		o := st.siteObject(x, et, "alloc."+x.Comment)
 		st.heap[o] = fx.Zero(et)
 		f.vals[x] = PtrVal{Obj: o, Nil: False(), Elem: et}
 		if x.Comment != "" && !strings.ContainsAny(x.Comment, " .()") {
@@ -115,7 +115,7 @@ func (fx *FuncCtx) step(st *State, in ssa.Instruction) (forks []*State, ended bo
 		st.oblige("safe", "safe#makeslice@"+site, And(BVSle(i64(0), l), BVSle(l, c), BVSlt(c, lim)), x.Pos())
 		st.assume(And(BVSle(i64(0), l), BVSle(l, c), BVSlt(c, lim)))
 		et := x.Type().Underlying().(*types.Slice).Elem()
-		o := fx.newObject(types.NewArray(et, 0), "make")
+		o := st.siteObject(x, types.NewArray(et, 0), "make")
 		z := fx.Zero(types.NewArray(et, 0))
 		st.heap[o] = z
 		f.vals[x] = SliceVal{Base: PtrVal{Obj: o, Nil: False()}, Off: i64(0), Len: l, Cap: c, Nil: False(), ElemT: et}
@@ -539,7 +539,7 @@ func (fx *FuncCtx) convert(st *State, x *ssa.Convert) Value {
 	case isStringType(to):
 		switch s := v.(type) {
 		case SliceVal: // string([]byte): copy
-			o := fx.newObject(types.NewArray(types.Typ[types.Uint8], 0), "str.copy")
+			o := st.siteObject(x, types.NewArray(types.Typ[types.Uint8], 0), "str.copy")
 			st.heap[o] = st.baseArr(s.Base)
 			return StringVal{Base: PtrVal{Obj: o, Nil: False()}, Off: s.Off, Len: s.Len}
 		case Term: // string(rune)
@@ -550,7 +550,7 @@ func (fx *FuncCtx) convert(st *State, x *ssa.Convert) Value {
 		if sl, ok := to.Underlying().(*types.Slice); ok {
 			if s, ok := v.(StringVal); ok {
 				if b, ok := sl.Elem().Underlying().(*types.Basic); ok && b.Kind() == types.Uint8 {
-					o := fx.newObject(types.NewArray(types.Typ[types.Uint8], 0), "bytes.copy")
+					o := st.siteObject(x, types.NewArray(types.Typ[types.Uint8], 0), "bytes.copy")
 					st.heap[o] = st.baseArr(s.Base)
 					return SliceVal{Base: PtrVal{Obj: o, Nil: False()}, Off: s.Off, Len: s.Len, Cap: s.Len, Nil: False(), ElemT: sl.Elem()}
 				}
